@@ -5,12 +5,14 @@ use std::io::{self, BufRead, Write};
 mod util;
 mod ops_c13;
 mod ops_rpu;
+mod ops_av1;
 
 pub use util::*;
 
 fn dispatch(parts: &[&str]) -> String {
     match parts[0] {
         "esc" | "unesc" | "hesc" | "hunesc" | "escdigest" | "nalwrite" => ops_c13::run(parts),
+        op if op.starts_with("av1.") => ops_av1::run(parts),
         op if op.starts_with("rpu.") || op.starts_with("nalu.") => ops_rpu::run(parts),
         _ => "bad-op".to_string(),
     }
